@@ -38,12 +38,12 @@ func (Prop) Level() string { return "exploration" }
 func (Prop) Rule() string {
 	return "exhaustive: universes of 4 (quick) / 6 (thorough) ids placed at chosen hash positions (clustered / range-edge / spread), every pair of (absent, head0, head1) assignments x divide factors {2,3,4,16} x thresholds {1,2,3,16} x {Diff, CompareDiff} in process, every 8th also through the headsync and key-value wire adapters; " +
 		"random: pairs of sets (log-uniform size, up to 50 000) derived from a common base with random new/changed/removed fractions, random parameters incl. (32,256), all 7 variant x path combinations; " +
-		"skewed: the same with 1-4 clusters of ids constructed to share 8-51 leading hash bits (cluster size around and above the threshold) and, in a third of the cases, a cluster on the first/last hash values of a canonical range of depth 1-3; degenerate (outside the stated assumption, own keys): ids constructed to have identical or adjacent xxhash64 values, each case in a child process; wire: medium random/skewed pairs through DiffManager.TryDiff <-> DiffManager.HandleRangeRequest, headsync.NewRemoteDiff <-> HandleRangeRequest and keyvalue.NewRemoteDiff <-> HandleRangeRequest with every request and response marshalled; " +
+		"skewed: the same with 1-4 clusters of ids constructed to share 8-51 leading hash bits (cluster size around and above the threshold) and, in a third of the cases, a cluster on the first/last hash values of a canonical range of depth 1-3; degenerate (outside the stated assumption, own keys): ids constructed to have identical or adjacent xxhash64 values, each case in a child process; mixed-params: random / skewed / churn pairs whose responder index uses a different divide factor and/or threshold than the requester (ranges the responder has not in its own division are answered by scanning), all paths; wire: medium random/skewed pairs through DiffManager.TryDiff <-> DiffManager.HandleRangeRequest, headsync.NewRemoteDiff <-> HandleRangeRequest and keyvalue.NewRemoteDiff <-> HandleRangeRequest with every request and response marshalled; " +
 		"a case is non-trivial when the two sets differ; distinct = (workload, universe/local/remote assignment) resp. (workload, case index, parameters)."
 }
 func (Prop) Assumptions() []string {
 	return []string{
-		"both sides use the same divide factor and threshold (as every caller in the repository does)",
+		"both sides use the same divide factor and threshold (as every caller in the repository does) in every workload except mixed-params, where the responder's index is built with different ones (violations found only there carry the key prefix mixed-params:)",
 		"ids and heads are non-empty strings; ids are valid UTF-8 (they travel in proto3 string fields)",
 		"both indexes are static during a diff",
 		"any two distinct ids are at least 2^12 apart in the 64-bit hash space (no engineered xxhash64 near-collisions; see FINDINGS.md, observation O-C07-a)",
@@ -162,6 +162,7 @@ func (Prop) Plan(tier string) []lib.Workload {
 			{Name: "skewed", Cases: 6000, MinNontrivial: 3000, BatchTimeout: 120 * time.Minute},
 			{Name: "wire", Cases: 4000, MinNontrivial: 2000, BatchTimeout: 120 * time.Minute},
 			{Name: "churn", Cases: 8000, MinNontrivial: 4000, BatchTimeout: 120 * time.Minute},
+			{Name: "mixed-params", Cases: 6000, MinNontrivial: 3000, BatchTimeout: 120 * time.Minute},
 			{Name: "large", Cases: 300, MinNontrivial: 150, BatchTimeout: 120 * time.Minute},
 			{Name: "degenerate", Cases: len(degCases(tier)), MinNontrivial: 10, Batches: 8, BatchTimeout: 120 * time.Minute},
 		}
@@ -172,6 +173,7 @@ func (Prop) Plan(tier string) []lib.Workload {
 		{Name: "skewed", Cases: 500, MinNontrivial: 250},
 		{Name: "wire", Cases: 400, MinNontrivial: 200},
 		{Name: "churn", Cases: 600, MinNontrivial: 300},
+		{Name: "mixed-params", Cases: 500, MinNontrivial: 250},
 		{Name: "large", Cases: 6, MinNontrivial: 3},
 		{Name: "degenerate", Cases: len(degCases(tier)), MinNontrivial: 10, Batches: 6},
 	}
@@ -364,14 +366,18 @@ type pairCase struct {
 	local  *side
 	remote *side
 	pr     params
+	// remotePr: the responder's parameters when they differ from the requester's (workload mixed-params)
+	remotePr *params
 }
 
 type reporter struct {
 	c        *lib.Case
 	reported map[string]bool
+	prefix   string
 }
 
 func (r *reporter) violation(key, what string, detail any) {
+	key = r.prefix + key
 	if r.reported[key] {
 		r.c.Count("violations_suppressed_same_key_same_case", 1)
 		return
@@ -385,6 +391,9 @@ func witness(p *pairCase) map[string]any {
 		"local_size": len(p.local.m), "remote_size": len(p.remote.m)}
 	if p.desc != nil {
 		w["generator"] = p.desc
+	}
+	if p.remotePr != nil {
+		w["responder_divide_factor"], w["responder_threshold"] = p.remotePr.df, p.remotePr.thr
 	}
 	if len(p.local.m)+len(p.remote.m) <= 24 {
 		w["local"] = withHash(p.local.m)
@@ -576,6 +585,38 @@ func (Prop) RunCase(c *lib.Case) {
 		runGenerated(c, r, g, allCombos)
 	case "churn":
 		runGenerated(c, r, genChurn(c.Rng), allCombos)
+	case "mixed-params":
+		// "any tuning parameters": the responder's index is built with a divide factor and/or threshold
+		// different from the requester's, so that the requester asks for ranges the responder has not in
+		// its own division and the responder answers them by scanning (no hash, elements + count) -
+		// added after seeded change C07-3 (wire adapter dropping exactly those answers) was missed
+		var g *pairCase
+		switch c.Rng.Intn(3) {
+		case 0:
+			g = genRandom(c.Rng, sizeFor(c, 3000), "random")
+		case 1:
+			g = genSkewed(c.Rng, sizeFor(c, 1500))
+		default:
+			g = genChurn(c.Rng)
+		}
+		g.class = "mixed-" + g.class
+		rp := g.pr
+		for rp == g.pr {
+			switch c.Rng.Intn(3) {
+			case 0:
+				rp.df = rndDF[c.Rng.Intn(len(rndDF))]
+			case 1:
+				rp.thr = rndThr[c.Rng.Intn(len(rndThr))]
+			default:
+				rp = randomParams(c.Rng)
+			}
+		}
+		g.remote.idx = build(g.remote.m, rp, c.Rng, c.Rng.Intn(4))
+		g.remotePr = &rp
+		r.prefix = "mixed-params:"
+		c.Count(fmt.Sprintf("mixed.requester_df_%s_responder_df", cmpWord(g.pr.df, rp.df)), 1)
+		c.Count(fmt.Sprintf("mixed.requester_thr_%s_responder_thr", cmpWord(g.pr.thr, rp.thr)), 1)
+		runGenerated(c, r, g, allCombos)
 	case "degenerate":
 		runDegenerate(c, r)
 	case "large":
@@ -583,6 +624,16 @@ func (Prop) RunCase(c *lib.Case) {
 		g := genRandom(c.Rng, n, "large")
 		runGenerated(c, r, g, allCombos)
 	}
+}
+
+func cmpWord(a, b int) string {
+	switch {
+	case a < b:
+		return "lt"
+	case a > b:
+		return "gt"
+	}
+	return "eq"
 }
 
 func sizeFor(c *lib.Case, max int) int {
